@@ -896,8 +896,17 @@ class Foreign(EngineBase):
                 if tier == "thorough" and len(acc) >= 2:
                     for _ in range(2):
                         i, j = sorted(rng.sample(range(len(acc)), 2))
-                        if not (acc[i][1].startswith("native:") and
-                                acc[j][1].startswith("native:")):
+
+                        def procnat(a_):
+                            return a_[1].startswith("native:") and (
+                                a_[1][7:].startswith(("proc_",
+                                                      "query_process"))
+                                or a_[1][7:] in ("getpriority",
+                                                 "setpriority",
+                                                 "net_connections"))
+                        if not (procnat(acc[i]) and procnat(acc[j])):
+                            continue
+                        if pidkind == "zero":
                             continue
                         plan = dict(base, faults=[
                             {"k": i, "errno": errno.EACCES, "winerror": 5},
